@@ -1179,7 +1179,8 @@ def main():
     import cxx2lean_enc      # mode 4: the encoders (tools/cxx2lean_enc.py)
     import cxx2lean_auth     # mode 5: the credential check (tools/cxx2lean_auth.py)
     import cxx2lean_router   # mode 6: the decision chain of request_router::handle_request
-    for name, job in cxx2lean_rx.JOBS + [("ENC", cxx2lean_enc.translate_encoders), ("AU", cxx2lean_auth.translate_auth), ("RT", cxx2lean_router.translate_router)]:
+    import cxx2lean_uri      # mode 7: the constructor of request_uri
+    for name, job in cxx2lean_rx.JOBS + [("ENC", cxx2lean_enc.translate_encoders), ("AU", cxx2lean_auth.translate_auth), ("RT", cxx2lean_router.translate_router), ("URI", cxx2lean_uri.translate_uri)]:
         out = os.path.join(OUTDIR, name + ".lean")
         try:
             text = job()
